@@ -117,6 +117,8 @@ def gen_call_2d(rng, last=None):
         w = rng.choice([None, None, None, 'ok', 'pool', 'bad'])
     else:
         m = rng.choice(sorted(PLAIN2))
+        if 'half_window' in PLAIN2[m]:
+            kw = {'half_window': rng.choice([2, 3, [2, 3]])}
     t = rng.random()
     if t < 0.05:
         data = 'short'
@@ -126,7 +128,8 @@ def gen_call_2d(rng, last=None):
         data = 'nan'
     elif t < 0.10:
         data = 'none'
-    return {'m': m, 'kw': kw, 'data': data, 'w': w}
+    from .c03 import add_pp, ARRAYABLE_2D
+    return add_pp(rng, {'m': m, 'kw': kw, 'data': data, 'w': w}, ARRAYABLE_2D)
 
 
 def pair(v):
@@ -217,8 +220,8 @@ def make_axes(kind, M, N):
             'unsorted': (x[::-1].copy(), z)}[kind]
 
 
-def call_args_2d(call, M, N, y, pool=None, idx=0, fresh=False):
-    from .c03 import refill
+def call_args_2d(call, M, N, y, pool=None, idx=0, fresh=False, unpool=()):
+    from .c03 import refill, pool_params
     data = {'ok': y, 'pool': y, 'none': None, 'short': y[:, :-1], 'nan': None}[call['data']]
     if call['data'] == 'pool' and pool is not None:
         if not fresh:
@@ -241,6 +244,7 @@ def call_args_2d(call, M, N, y, pool=None, idx=0, fresh=False):
         kw['weights'] = pool['w'].copy() if fresh else pool['w']
     elif call['w'] == 'bad':
         kw['weights'] = np.ones((sh[0] + 1, sh[1]))
+    pool_params(call, kw, pool, fresh, 2, unpool)
     return data, kw
 
 
@@ -339,7 +343,7 @@ def do_call(f, call, args):
             return ('raise', type(exc).__name__, str(exc)[:200])
 
 
-def run_history_2d(h, check_fresh=True):
+def run_history_2d(h, check_fresh=True, unpool=()):
     from .c03 import same_result, describe_diff
     M, N, seed = h['M'], h['N'], h['seed']
     y = make_data2(M, N, seed)
@@ -349,7 +353,7 @@ def run_history_2d(h, check_fresh=True):
     diffs = []
     pool = {'w': np.ones((M, N)), 'y': y.copy()}
     for i, call in enumerate(h['calls']):
-        args = None if call['m'] == 'set_solver' else call_args_2d(call, M, N, y, pool, i)
+        args = None if call['m'] == 'set_solver' else call_args_2d(call, M, N, y, pool, i, unpool=unpool)
         ref = None
         if check_fresh and call['m'] != 'set_solver':
             g = fresh_2d(f, x_in, z_in)
